@@ -638,7 +638,7 @@ static void run_coll(Rng& g, long nops, std::size_t max_node, std::size_t block_
     {
         switch (g.below(6))
         {
-        case 0: return 1 + g.below(8);
+        case 0: return 1 + g.below(std::min<std::size_t>(mx, 8)); // never above max_node_size(): the queries require it
         case 1: return mx - g.below(std::min<std::size_t>(mx, 4));
         case 2:
         { // around a power of two
